@@ -265,11 +265,11 @@ def h_ace(ctx):
     return None
 
 
-def _acl_inputs(ctx):
+def _acl_inputs(ctx, indents=("", " ", "  ", "    ")):
     name, sel = ctx.pick("acl", ACLS)
     platform = ctx.pick("platform", ["ios", "nxos"])
     numbered = ctx.pick("numbered", [False, True])
-    indent = ctx.pick("indent", ["", " ", "  ", "    "])
+    indent = ctx.pick("indent", list(indents))
     w = AG.World(ctx)
     specs = [AG.TEMPLATES[name][i] for i in sel]
     s0 = ctx.fresh("s0", 1, 4000000000) if numbered else 0
@@ -323,7 +323,7 @@ class _lead:
 
 def h_ace_group(ctx):
     from cisco_acl import AceGroup
-    w, specs, platform, seqs, indent, name = _acl_inputs(ctx)
+    w, specs, platform, seqs, indent, name = _acl_inputs(ctx, ("  ",))
     txt = T.join([AG.line_text(w, s, platform, None if seqs is None else seqs[i]) for i, s in enumerate(specs)], "\n")
     cl = Claims(ctx)
     o1, o2 = fixpoint(ctx, cl, lambda t: AceGroup(t, platform=platform, port_nr=True), txt, "")
@@ -363,7 +363,7 @@ def h_standard_acl(ctx):
 def h_config(ctx):
     """config-level functions: acls(config) -> rendered config -> acls() again"""
     import cisco_acl
-    w, specs, platform, seqs, indent, name = _acl_inputs(ctx)
+    w, specs, platform, seqs, indent, name = _acl_inputs(ctx, (" ", "  ", "    "))
     txt = AG.acl_text(w, specs, platform, seqs=seqs, indent=indent)
     ghead = "object-group network G1" if platform == "ios" else "object-group ip address G1"
     members = ("host " + w.txt["Y"], w.txt["X"] + (" 255.255.255.0" if platform == "ios" else "/24"))
